@@ -29,7 +29,7 @@ ASSUMPTIONS = [
     "operation sequences, expression shapes, station subsets and listing orders are discrete and covered by forking / job enumeration inside the stated bounds",
     "phase angles concrete (0/30/-90/150/120) in the constraint_current queries; schedule entries symbolic",
 ]
-EXPECT_GLOBAL_TAGS = ("op:add", "op:remove", "op:update", "expr:sum", "expr:diff", "expr:scaled_operand", "registration_refused", "query:subset", "op:reuse")
+EXPECT_GLOBAL_TAGS = ("op:add", "op:remove", "op:update", "expr:sum", "expr:diff", "expr:scaled_operand", "registration_refused", "query:subset", "query:linear", "op:reuse")
 
 
 # ---- expression trees: (kind, ...) built both as a real Current and as a model dict -------------------------------------
@@ -322,6 +322,29 @@ def query(cx, net, ids, model, angles):
                     band = 1e-9 * 32 * 16 * 4 * 4
                     cx.check("query:re", and_(le(z.real - re, band), le(re - z.real, band)))
                     cx.check("query:im", and_(le(z.imag - im, band), le(im - z.imag, band)))
+    query_linear(cx, net, ids, model, X, M, T)
+
+
+def query_linear(cx, net, ids, model, X, M, T):
+    """the 'linear' form of constraint_current (sum of |coefficient| x current) for the same subsets of rows and periods"""
+    n = len(ids)
+    names = [r[0] for r in model]
+    for sub in (None, names[-1:]):
+        for ti in (None, [2, 0], [1]):
+            cc = net.constraint_current(M, constraints=sub, time_indices=ti, linear=True)
+            rows = [i for i in range(len(model)) if sub is None or names[i] in sub]
+            cols = list(range(T)) if ti is None else ti
+            ok_shape = tuple(cc.shape) == (len(rows), len(cols))
+            cx.check("query_linear:shape", ok_shape, note="%s vs %s" % (cc.shape, (len(rows), len(cols))))
+            if not ok_shape:
+                continue
+            cx.tag("query:linear")
+            for a, i in enumerate(rows):
+                for b, t in enumerate(cols):
+                    want = sum(abs(model[i][1].get(ids[j], 0)) * X[j][t] for j in range(n))
+                    band = 1e-9 * 32 * 16 * 4 * 4
+                    v = cc[a, b]  # returned as a complex number with zero imaginary part
+                    cx.check("query_linear:value", and_(le(v.real - want, band), le(want - v.real, band), le(v.imag, band), le(-v.imag, band)))
 
 
 def h_expr(cx, n, perm, spec, tier):
